@@ -37,6 +37,12 @@ func (c *C) keyspaceAccess(ci ssa.CallInstruction) *ksAccess {
 				}
 			}
 		}
+		// a thin lookup of the database itself: m.ttlRecord(key) = m.ttlKeys.Get(key) + type assertion
+		if fld, ki, meth, ok := c.memdbWrapper(f); ok {
+			if args := ci.Common().Args; ki < len(args) {
+				return &ksAccess{In: ci, Map: fld, Method: meth, Key: args[ki], Write: false}
+			}
+		}
 		return nil
 	}
 	if f == nil || !isMethodOf(f, c.Facts.CMap) {
@@ -453,29 +459,33 @@ func (la *lockAnalysis) entryFor(fn *ssa.Function) Set {
 				continue
 			}
 			refs := mc.Referrers()
-			if refs == nil || len(*refs) != 1 {
+			if refs == nil || len(*refs) == 0 {
 				return Set{}
 			}
-			var site ssa.Instruction
-			deferred := false
-			switch u := (*refs)[0].(type) {
-			case *ssa.Defer:
-				site, deferred = u, true
-			case *ssa.Call:
-				if u.Call.Value == mc {
-					site = u
+			// every use is a direct call (or one defer): the closure starts with what is held at all of them
+			type useSite struct {
+				site     ssa.Instruction
+				deferred bool
+			}
+			var sites []useSite
+			for _, r := range *refs {
+				switch u := r.(type) {
+				case *ssa.Defer:
+					sites = append(sites, useSite{u, true})
+				case *ssa.Call:
+					if u.Call.Value != mc {
+						return Set{}
+					}
+					sites = append(sites, useSite{u, false})
+				case *ssa.DebugRef:
+				default:
+					return Set{}
 				}
-			case *ssa.Go:
-				return Set{}
 			}
-			if site == nil {
+			if len(sites) == 0 {
 				return Set{}
 			}
 			pf := la.flow(par)
-			s, ok := pf.Must.Before(site)
-			if !ok {
-				return Set{}
-			}
 			ren := map[string]string{}
 			sub := map[string]string{}
 			for i, bnd := range mc.Bindings {
@@ -488,23 +498,42 @@ func (la *lockAnalysis) entryFor(fn *ssa.Function) Set {
 					}
 				}
 			}
-			out := Set{}
-			for t := range s {
-				h, ok := parseTok(t)
+			var out Set
+			for _, us := range sites {
+				s, ok := pf.Must.Before(us.site)
 				if !ok {
-					continue
+					continue // an unreachable use
 				}
-				if deferred {
-					// only locks whose release is itself deferred (registered earlier, hence run later) are still held
-					if !s["D|"+h.Class+"|"+h.Mode+"|"+h.Key] {
+				one := Set{}
+				for t := range s {
+					h, ok := parseTok(t)
+					if !ok {
 						continue
 					}
+					if us.deferred {
+						// only locks whose release is itself deferred (registered earlier, hence run later) are still held
+						if !s["D|"+h.Class+"|"+h.Mode+"|"+h.Key] {
+							continue
+						}
+					}
+					key := h.Key
+					for from, to := range sub {
+						key = strings.ReplaceAll(key, from, to)
+					}
+					one["L|"+h.Class+"|"+h.Mode+"|"+renameIdents(key, ren)+"|entry"] = true
 				}
-				key := h.Key
-				for from, to := range sub {
-					key = strings.ReplaceAll(key, from, to)
+				if out == nil {
+					out = one
+				} else {
+					for t := range out {
+						if !one[t] {
+							delete(out, t)
+						}
+					}
 				}
-				out["L|"+h.Class+"|"+h.Mode+"|"+renameIdents(key, ren)+"|entry"] = true
+			}
+			if out == nil {
+				out = Set{}
 			}
 			la.closureEntry[fn] = out
 			return out
@@ -1049,4 +1078,89 @@ func (c *C) cmapWrapper(fn *ssa.Function) (mi, ki int, meth string, ok bool) {
 	c.wrapMemo[fn0] = [4]int{mi, ki, 1, 0}
 	c.wrapMeth[fn0] = meth
 	return mi, ki, meth, true
+}
+
+// memdbWrapper: fn takes a *MemDb (usually as its receiver) and a key parameter (index ki), and all it calls is one
+// keyed read M(m.<fld>, key) of that database's keyspace or deadline table: a typed lookup. Returns the field, the key
+// parameter's index and M.
+func (c *C) memdbWrapper(fn *ssa.Function) (fld string, ki int, meth string, ok bool) {
+	fn0 := origin(fn)
+	if c.mwrapMemo == nil {
+		c.mwrapMemo = map[*ssa.Function]*[3]string{}
+	}
+	if r, done := c.mwrapMemo[fn0]; done {
+		if r == nil {
+			return "", 0, "", false
+		}
+		k := 0
+		fmt.Sscan(r[1], &k)
+		return r[0], k, r[2], true
+	}
+	c.mwrapMemo[fn0] = nil
+	if fn.Blocks == nil || len(fn.Blocks) > 8 {
+		return "", 0, "", false
+	}
+	mi := -1
+	for i, p := range fn.Params {
+		if isNamed(p.Type(), c.Facts.MemDb) {
+			mi = i
+		}
+	}
+	if mi < 0 {
+		return "", 0, "", false
+	}
+	n := 0
+	ki = -1
+	for _, b := range fn.Blocks {
+		for _, in := range b.Instrs {
+			switch in.(type) {
+			case *ssa.Go, *ssa.Defer, *ssa.Send, *ssa.Store, *ssa.MapUpdate:
+				// a store into the result cell of a function with named results is fine; any other write is not a lookup
+				if st, isSt := in.(*ssa.Store); isSt {
+					if al, isAl := st.Addr.(*ssa.Alloc); isAl && !al.Heap {
+						continue
+					}
+				}
+				return "", 0, "", false
+			}
+			ci, isCall := in.(ssa.CallInstruction)
+			if !isCall {
+				continue
+			}
+			if _, isB := ci.Common().Value.(*ssa.Builtin); isB {
+				continue
+			}
+			cf := callee(ci)
+			args := ci.Common().Args
+			if cf == nil || !isMethodOf(cf, c.Facts.CMap) || len(args) < 2 {
+				return "", 0, "", false
+			}
+			w, keyed := cmapKeyed[cf.Name()]
+			if !keyed || w {
+				return "", 0, "", false
+			}
+			f := ""
+			for _, cand := range []string{"db", "ttlKeys"} {
+				if isFieldLoad(args[0], c.Facts.MemDb, cand) {
+					f = cand
+				}
+			}
+			kp, isP := args[1].(*ssa.Parameter)
+			if f == "" || !isP {
+				return "", 0, "", false
+			}
+			for i, p := range fn.Params {
+				if p == kp {
+					ki = i
+				}
+			}
+			fld, meth = f, cf.Name()
+			n++
+		}
+	}
+	if n != 1 || ki < 0 {
+		return "", 0, "", false
+	}
+	c.mwrapMemo[fn0] = &[3]string{fld, fmt.Sprint(ki), meth}
+	return fld, ki, meth, true
 }
